@@ -399,6 +399,26 @@ func runParamsCase(ta *TestApp, seed uint64, idx int, rep *Report, profile strin
 				if len(nc.minters) > 1 {
 					nc.minters[len(nc.minters)-1].seq += 2
 				}
+			case 3: // the current period kept, one period's own configuration on or beyond a boundary of the rules
+				for i := range nc.minters {
+					nc.minters[i].seq = mstate.SequenceId + uint32(i)
+				}
+				i := rng.Intn(len(nc.minters))
+				switch rng.Intn(5) {
+				case 0: // exponential steps of length zero
+					nc.minters[i].kind, nc.minters[i].amt, nc.minters[i].step, nc.minters[i].mult = 2, bi(1+rng.I64n(1000)), 0, sdk.NewDecWithPrec(5, 1)
+				case 1: // ... of negative length
+					nc.minters[i].kind, nc.minters[i].amt, nc.minters[i].step, nc.minters[i].mult = 2, bi(1+rng.I64n(1000)), -time.Duration(1+rng.I64n(1000)), sdk.NewDecWithPrec(5, 1)
+				case 2: // exponential amount zero (refused) / one (accepted), steps of one or two seconds
+					nc.minters[i].kind, nc.minters[i].amt, nc.minters[i].step, nc.minters[i].mult = 2, bi(rng.I64n(2)), time.Duration(1+rng.I64n(2))*time.Second, sdk.NewDecWithPrec(5, 1)
+				case 3: // multiplier zero / negative
+					nc.minters[i].kind, nc.minters[i].amt, nc.minters[i].step, nc.minters[i].mult = 2, bi(7), time.Hour, sdk.NewDec(int64(-rng.Intn(2)))
+				default: // linear amount negative / zero
+					if nc.minters[i].end != nil {
+						nc.minters[i].kind, nc.minters[i].amt = 1, bi(-rng.I64n(2))
+					}
+				}
+				rep.Count("minter_candidate.period_configuration_on_a_boundary")
 			}
 			np := nc.params()
 			full := rng.Bool()
@@ -471,6 +491,27 @@ func runParamsCase(ta *TestApp, seed uint64, idx int, rep *Report, profile strin
 			}
 		}
 		rep.Eval("C13.current_minter_period_exists", hasCur, idx, s, fmt.Sprintf("%s: stored minters no longer contain the current period %d", term, mstate.SequenceId))
+		// the per-period rules, judged here independently of the module's own Validate: linear amounts are not negative; exponential
+		// amounts and step lengths are positive, multipliers not negative
+		okCfg, badCfg := true, ""
+		for _, m := range afterM.Minters {
+			cfg, err := m.GetMinterConfig()
+			if err != nil {
+				okCfg, badCfg = false, fmt.Sprintf("period %d: %v", m.SequenceId, err)
+				continue
+			}
+			switch c := cfg.(type) {
+			case *mintertypes.LinearMinting:
+				if c.Amount.IsNil() || c.Amount.IsNegative() {
+					okCfg, badCfg = false, fmt.Sprintf("period %d: linear amount %v", m.SequenceId, c.Amount)
+				}
+			case *mintertypes.ExponentialStepMinting:
+				if c.Amount.IsNil() || !c.Amount.IsPositive() || c.AmountMultiplier.IsNil() || c.AmountMultiplier.IsNegative() || c.StepDuration <= 0 {
+					okCfg, badCfg = false, fmt.Sprintf("period %d: exponential amount %v multiplier %v step %v", m.SequenceId, c.Amount, c.AmountMultiplier, c.StepDuration)
+				}
+			}
+		}
+		rep.Eval("C13.stored_minter_periods_obey_the_configuration_rules", okCfg, idx, s, term+": "+badCfg)
 		rep.Eval("C13.vesting_denom_fixed_while_pools_exist", !poolsExist || afterV.Denom == beforeV.Denom, idx, s, term)
 		// evaluated on the pools themselves, not on the number of owner entries
 		rep.Eval("C13.vesting_denom_fixed_while_any_pool_is_stored", !anyPool || afterV.Denom == beforeV.Denom, idx, s, term)
